@@ -23,64 +23,71 @@ def search(ck, tier, seed):
         if t[0] != "ok":
             continue
         t = t[1]
-        x, ctx = catalogue.sample_inputs(e, 5, seed + 50)
-        for direction in ("forward", "inverse"):
-            fn = t.forward if direction == "forward" else t.inverse
-            arg = x
-            if direction == "inverse":
+        x0, ctx = catalogue.sample_inputs(e, 5, seed + 50)
+        variants = [("plain", x0)]
+        if e["dom"] == "real" and not e["umnn"]:
+            # rows of very different magnitude: some entirely inside a spline's interval / a nonlinearity's central
+            # region, others in the tails, so that batch-wide shortcuts show
+            scales = torch.tensor([0.15, 0.5, 1.0, 2.5, 6.0], dtype=x0.dtype).reshape([5] + [1] * (x0.dim() - 1))
+            variants.append(("mixed-scale", x0 * scales))
+        for vname, x in variants:
+          for direction in ("forward", "inverse"):
+                fn = t.forward if direction == "forward" else t.inverse
+                arg = x
+                if direction == "inverse":
+                    with torch.no_grad():
+                        r0 = attempt(t.forward, x, ctx)
+                    if r0[0] != "ok":
+                        continue
+                    arg = r0[1][0].detach()
                 with torch.no_grad():
-                    r0 = attempt(t.forward, x, ctx)
-                if r0[0] != "ok":
+                    full = attempt(fn, arg, ctx)
+                if full[0] != "ok":
                     continue
-                arg = r0[1][0].detach()
-            with torch.no_grad():
-                full = attempt(fn, arg, ctx)
-            if full[0] != "ok":
-                continue
-            yf, lf = full[1]
-            ck.case(("c12", e["name"], direction), nontrivial=True)
-            ck.count(direction)
-            case = {"search": "batch", "entry": e["name"], "direction": direction, "seed": seed}
-            # rows one at a time (batch size one)
-            for i in range(arg.shape[0]):
+                yf, lf = full[1]
+                ck.case(("c12", e["name"], direction, vname), nontrivial=True)
+                ck.count(direction)
+                case = {"search": "batch", "entry": e["name"], "direction": direction, "inputs": vname, "seed": seed}
+                # rows one at a time (batch size one)
+                for i in range(arg.shape[0]):
+                    with torch.no_grad():
+                        r = attempt(fn, arg[i:i + 1], None if ctx is None else ctx[i:i + 1])
+                    if r[0] != "ok":
+                        ck.finding("batch:single-row-fails:%s" % e["name"], "%s %s row %d: %s %s" % (e["name"], direction, i, r[1], r[2]), case)
+                        break
+                    ok1, ex1 = close_enough(r[1][0][0], yf[i], torch.float64)
+                    ok2, ex2 = close_enough(r[1][1][0], lf[i], torch.float64)
+                    exact += ex1 and ex2
+                    inexact += not (ex1 and ex2)
+                    if not (ok1 and ok2):
+                        ck.finding("batch:row-depends-on-other-rows:%s" % e["name"],
+                                   "%s %s: row %d evaluated alone differs from the same row inside the batch (max diff %.3g)"
+                                   % (e["name"], direction, i, float((r[1][0][0] - yf[i]).abs().max())), case)
+                        break
+                # permutation equivariance
+                perm = torch.tensor([3, 0, 4, 1, 2])
                 with torch.no_grad():
-                    r = attempt(fn, arg[i:i + 1], None if ctx is None else ctx[i:i + 1])
-                if r[0] != "ok":
-                    ck.finding("batch:single-row-fails:%s" % e["name"], "%s %s row %d: %s %s" % (e["name"], direction, i, r[1], r[2]), case)
-                    break
-                ok1, ex1 = close_enough(r[1][0][0], yf[i], torch.float64)
-                ok2, ex2 = close_enough(r[1][1][0], lf[i], torch.float64)
-                exact += ex1 and ex2
-                inexact += not (ex1 and ex2)
-                if not (ok1 and ok2):
-                    ck.finding("batch:row-depends-on-other-rows:%s" % e["name"],
-                               "%s %s: row %d evaluated alone differs from the same row inside the batch (max diff %.3g)"
-                               % (e["name"], direction, i, float((r[1][0][0] - yf[i]).abs().max())), case)
-                    break
-            # permutation equivariance
-            perm = torch.tensor([3, 0, 4, 1, 2])
-            with torch.no_grad():
-                r = attempt(fn, arg[perm], None if ctx is None else ctx[perm])
-            if r[0] == "ok":
-                ok1, _ = close_enough(r[1][0], yf[perm], torch.float64)
-                ok2, _ = close_enough(r[1][1], lf[perm], torch.float64)
-                if not (ok1 and ok2):
-                    ck.finding("batch:not-permutation-equivariant:%s" % e["name"], "%s %s" % (e["name"], direction), case)
-            # unaffected by extra rows
-            extra, ectx = catalogue.sample_inputs(e, 3, seed + 77)
-            if direction == "inverse":
+                    r = attempt(fn, arg[perm], None if ctx is None else ctx[perm])
+                if r[0] == "ok":
+                    ok1, _ = close_enough(r[1][0], yf[perm], torch.float64)
+                    ok2, _ = close_enough(r[1][1], lf[perm], torch.float64)
+                    if not (ok1 and ok2):
+                        ck.finding("batch:not-permutation-equivariant:%s" % e["name"], "%s %s" % (e["name"], direction), case)
+                # unaffected by extra rows
+                extra, ectx = catalogue.sample_inputs(e, 3, seed + 77)
+                if direction == "inverse":
+                    with torch.no_grad():
+                        re = attempt(t.forward, extra, ectx)
+                    if re[0] != "ok":
+                        continue
+                    extra = re[1][0].detach()
                 with torch.no_grad():
-                    re = attempt(t.forward, extra, ectx)
-                if re[0] != "ok":
-                    continue
-                extra = re[1][0].detach()
-            with torch.no_grad():
-                r = attempt(fn, torch.cat([extra[:1], arg, extra[1:]]), None if ctx is None else torch.cat([ectx[:1], ctx, ectx[1:]]))
-            if r[0] == "ok":
-                ok1, _ = close_enough(r[1][0][1:1 + arg.shape[0]], yf, torch.float64)
-                ok2, _ = close_enough(r[1][1][1:1 + arg.shape[0]], lf, torch.float64)
-                if not (ok1 and ok2):
-                    ck.finding("batch:affected-by-other-rows:%s" % e["name"], "%s %s" % (e["name"], direction), case)
+                    r = attempt(fn, torch.cat([extra[:1], arg, extra[1:]]), None if ctx is None else torch.cat([ectx[:1], ctx, ectx[1:]]))
+                if r[0] == "ok":
+                    ok1, _ = close_enough(r[1][0][1:1 + arg.shape[0]], yf, torch.float64)
+                    ok2, _ = close_enough(r[1][1][1:1 + arg.shape[0]], lf, torch.float64)
+                    if not (ok1 and ok2):
+                        ck.finding("batch:affected-by-other-rows:%s" % e["name"], "%s %s" % (e["name"], direction), case)
     ck.notes.append("row comparisons bit-identical: %d, within a few ulps (BLAS blocking): %d" % (exact, inexact))
     # distributions and flows
     from nflows.distributions import normal, discrete, mixture
@@ -150,7 +157,7 @@ def correspondence(ck, drv, seed):
 
 
 def run(tier, seed):
-    ck = Check("C12", tier, seed, areas=["batch"], gen_groups=[])
+    ck = Check("C12", tier, seed, areas=["batch"], gen_groups=["TailWrappers"])
     ck.rule = ("every catalogue transform (evaluation mode, float64, 2-D and image inputs with h != w and c != h) in both "
                "directions, and six distributions / flows: the batch result vs each row evaluated alone (batch size one), vs a "
                "permuted batch, vs the batch embedded among extra rows; bit-exact, falling back to a few ulps for matrix "
